@@ -1,4 +1,5 @@
 import Driver.Util
+import Driver.RetryCred
 open Lean Replicat
 namespace Driver.HRetry
 open Replicat.Retry
@@ -106,6 +107,7 @@ def cfgJson (c : Cfg) : Json := Json.mkObj [
 
 /-- requests `retry.*` (see DESIGN.md Appendix A) -/
 def handleRetry (op : String) (j : Json) : Except String Json := do
+  if op.startsWith "retry.session" then return ← Driver.handleRetryCred op j      -- sessions on one object: Driver/RetryCred.lean
   match op with
   | "retry.cfg" =>
     let b ← parseBackend (← getStr j "backend")
